@@ -1,11 +1,12 @@
 """property id -> check function"""
 import json, sys
-import checks_bytecode
+import checks_bytecode, checks_source
 
 CHECKS = {
     'C02': checks_bytecode.c02,
     'C03': checks_bytecode.c03,
     'C04': checks_bytecode.c04,
+    'C01': checks_source.c01,
 }
 
 
